@@ -112,8 +112,15 @@ def beartyping(
             # conflicting registrations of beartype configurations.
             claw_state.packages_trie_whitelist.conf_if_hooked = None
 
-        # Globalize the passed beartype configuration.
-        beartype_all(conf=conf)
+            # Globalize the passed beartype configuration.
+            #
+            # Note that this is intentionally done while still holding this
+            # (reentrant) lock. Releasing this lock between clearing the prior
+            # configuration above and registering this configuration here would
+            # expose other threads to a window in which *NO* global configuration
+            # is registered, causing modules concurrently imported by those
+            # threads to silently go unchecked.
+            beartype_all(conf=conf)
 
         # Defer to the caller body of the parent "with beartyping(...):" block.
         yield
